@@ -377,6 +377,13 @@ fn battery() -> Vec<Case> {
         v.push(Case::TruncText { text: format!("{}(){}", "[".repeat(limit), "]".repeat(limit)), q: d });
         v.push(Case::TruncText { text: format!("{}nil{}", "(".repeat(limit), ")".repeat(limit)), q: e });
     }
+    // decimal literals whose digits alone exceed the range of a double and whose
+    // negative exponent brings them back into it: cut inside the exponent, what
+    // is left is a complete literal that is out of range
+    for (zeros, exp) in [(320usize, "e-20"), (400, "e-200"), (309, "e-9"), (330, "E-100")] {
+        v.push(Case::TruncText { text: format!("1{}{}", "0".repeat(zeros), exp), q: d });
+        v.push(Case::TruncText { text: format!("(a -25{}.5{})", "0".repeat(zeros), exp), q: d });
+    }
     // every character name of R6RS, R7RS and the usual dialect extensions, bare
     // and inside a list and a vector: the ones the reader accepts are
     // truncated at every byte
